@@ -328,6 +328,13 @@ func CheckHeadCommitment(nd *Node) (string, string) {
 		if spentAndTrimmed(nd, head) {
 			return "spent-and-trimmed-same-block", fmt.Sprintf("head %x #%d spends a trimmable unlocked Qi output in the very block that trims it; header UTXORoot %x but database content hashes to %x", head.Hash().Bytes()[:6], head.NumberU64(Zone), head.UTXORoot().Bytes()[:8], root.Bytes()[:8])
 		}
+		// the double removal is inherited: once a block has taken an output out of the commitment
+		// twice, the root of every descendant differs from the content by the same output
+		for anc, i := nd.Core.GetBlockByHash(head.ParentHash(Zone)), 0; anc != nil && i < 4096 && !nd.Core.Slice().HeaderChain().IsGenesisHash(anc.Hash()); anc, i = nd.Core.GetBlockByHash(anc.ParentHash(Zone)), i+1 {
+			if spentAndTrimmed(nd, anc) {
+				return "spent-and-trimmed-same-block", fmt.Sprintf("ancestor #%d %x of head #%d spends a trimmable unlocked Qi output in the very block that trims it (inherited by every descendant); header UTXORoot %x but database content hashes to %x", anc.NumberU64(Zone), anc.Hash().Bytes()[:6], head.NumberU64(Zone), head.UTXORoot().Bytes()[:8], root.Bytes()[:8])
+			}
+		}
 		return "utxo-root", fmt.Sprintf("head %x #%d: header UTXORoot %x but database content hashes to %x (%d records)", head.Hash().Bytes()[:6], head.NumberU64(Zone), head.UTXORoot().Bytes()[:8], root.Bytes()[:8], n)
 	}
 	if ms := rawdb.ReadMultiSet(nd.DB, head.Hash()); ms == nil {
